@@ -63,6 +63,9 @@ def case_table(run, i):
         vals = pts + cross + [-30.0, 8.0, float("nan"), 0.0] + list(rng.uniform(-4, 4, 50))
         for v in vals:
             rows.append((chrom, v))
+    if i % 6 == 4:
+        # rows of one chromosome not adjacent (two tables stacked without re-sorting): every row is still called on its own values
+        rows = rows[::2] + rows[1::2]
     n = len(rows)
     starts = np.arange(n) * 1000
     mode = i % 5
@@ -84,7 +87,7 @@ def case_table(run, i):
         vdf = pd.DataFrame({"chromosome": np.array(cols["chromosome"])[ok], "start": starts[ok] + 10, "end": starts[ok] + 11,
                             "ref": "A", "alt": "C", "zygosity": 0.5, "alt_freq": baf[ok]})
         variants = VariantArray(vdf)
-    purity = float(rng.choice([0.3, 0.6, 0.9])) if mode == 2 else None
+    purity = float(rng.choice([0.3, 0.6, 0.9])) if mode == 2 else (1.0 if i % 7 == 5 else None)      # purity exactly 1 is "no rescaling": thresholds apply to the log2 as given
     cna = make_cna(cols, odd=(i % 3 == 1), meta=("none" if i % 4 == 2 else None))     # a quarter without a metadata dict (naming styles alternate within the process)
     run.begin_case("table", i, cls=f"table:ploidy{ploidy}:{'default' if th == calling.DEFAULT_THRESHOLDS else 'custom'}:" +
                    ["nobaf", "baf", "baf+purity", "baf-variants", "nobaf"][mode])
